@@ -304,6 +304,8 @@ func (r *Recover) EndPost(w http.ResponseWriter, req *http.Request) error {
 		}
 
 		authboss.PutSession(w, authboss.SessionKey, user.GetPID())
+		// An earlier user's second factor does not carry over to this login
+		authboss.DelSession(w, authboss.Session2FA)
 		successMsg = r.Localizef(req.Context(), authboss.TxtRecoverAndLoginSuccessMsg)
 
 		handled, err = r.Events.FireAfter(authboss.EventAuth, w, req)
